@@ -51,6 +51,7 @@ int main(void)
 				case 'R': { of_mod2dense *r = of_mod2dense_allocate(cur->n_rows, cur->n_cols); ints(a[1], t1); junk(r, a[2]); of_mod2dense_copyrows(cur, r, t1); of_mod2dense_free(cur); cur = r; break; }
 				case 'C': { of_mod2dense *r = of_mod2dense_allocate(cur->n_rows, cur->n_cols); ints(a[1], t1); junk(r, a[2]); of_mod2dense_copycols(cur, r, t1); of_mod2dense_free(cur); cur = r; break; }
 				case 'x': of_mod2dense_xor_rows(cur, atoi(a[1]), atoi(a[2])); break;
+				case 'p': { of_mod2word *t = cur->row[atoi(a[1])]; cur->row[atoi(a[1])] = cur->row[atoi(a[2])]; cur->row[atoi(a[2])] = t; break; }   /* row exchange as in of_ml_tool.c */
 				case 'w': res = of_mod2dense_row_weight(cur, atoi(a[1])); break;
 				case 'W': res = of_mod2dense_col_weight(cur, atoi(a[1])); break;
 				case 'I': { UINT32 w = of_mod2dense_row_weight_ignore_first(cur, atoi(a[1]), atoi(a[2])); res = (w == (UINT32)-1) ? 9999 : (long)w; break; }
